@@ -1,0 +1,35 @@
+//go:build verif
+
+package protocol
+
+// Round-trip lemmas for /verif (govc): each function decodes what the real
+// encoder produced; its contract (zz_verif_contracts.go) states that the
+// result equals the input message. The verifier checks the lemma against the
+// contracts of the encoder and the decoder, which are themselves proved on the
+// real bodies. Compiled only with -tags verif; never called.
+
+func zzRoundTripKeepalive(k *Keepalive) (*Keepalive, error) { return DecodeKeepalive(k.Encode()) }
+
+func zzRoundTripStreamReset(s *StreamReset) (*StreamReset, error) {
+	return DecodeStreamReset(s.Encode())
+}
+
+func zzRoundTripStreamOpenErr(s *StreamOpenErr) (*StreamOpenErr, error) {
+	return DecodeStreamOpenErr(s.Encode())
+}
+
+func zzRoundTripStreamOpenAck(s *StreamOpenAck) (*StreamOpenAck, error) {
+	return DecodeStreamOpenAck(s.Encode())
+}
+
+func zzRoundTripStreamOpen(s *StreamOpen) (*StreamOpen, error) {
+	return DecodeStreamOpen(s.Encode())
+}
+
+func zzRoundTripSleepCommand(s *SleepCommand) (*SleepCommand, error) {
+	return DecodeSleepCommand(s.Encode())
+}
+
+func zzRoundTripWakeCommand(w *WakeCommand) (*WakeCommand, error) {
+	return DecodeWakeCommand(w.Encode())
+}
